@@ -533,6 +533,7 @@ def _dist_cases(tier):
         case.update({"eos": eos, "max_iters": T, "batch": batch, "conds": conds,
                      "sample_shape": draw(st.sampled_from([[2], [], [1], [3], [2, 2], [16], [17], [33], [4, 8]])),
                      "seed": draw(st.integers(0, 2 ** 31 - 1)), "cache": draw(st.booleans()),
+                     "lm_mutates_state_dict": draw(st.sampled_from([False, False, False, True])),
                      "validate_args": draw(st.sampled_from([None, True, False]))})
         # history of calls on the ONE distribution object after the basic checks (must not matter, cache on or off)
         case["history"] = draw(st.sampled_from(["none", "A_B_A", "resample_then_A", "second_distribution_on_the_walk",
@@ -556,7 +557,7 @@ def _dist_cases(tier):
                             "zero_probability_tokens", "extreme_logits", "vocabulary_about_16", "vocabulary_about_32",
                             "samples_16_or_more", "history_A_B_A", "history_resample_then_A",
                             "history_second_distribution_on_the_walk", "history_edit_sample_in_place",
-                            "history_model_call_fails_once"])
+                            "history_model_call_fails_once", "state_dict_mutating_model_several_draws"])
 def _dist_check(case):
     import torch
     from pydrobert.torch.modules import RandomWalk
@@ -568,6 +569,8 @@ def _dist_check(case):
     V = spec["V"]
     eos = None if case["eos"] is None else case["eos"] % V
     lm = declm.HashLM(spec)
+    if case.get("lm_mutates_state_dict"):
+        lm.mutating = True  # a model that keeps its state in the dict it is handed (the wrapper hands out copies)
     walk = RandomWalk(lm, case["eos"])
     init = None if batch is None else {"cond": torch.tensor(conds, dtype=torch.long)}
     dist = SequentialLanguageModelDistribution(walk, batch, init, T, cache_samples=case["cache"],
@@ -630,6 +633,8 @@ def _dist_check(case):
     cl.add("sample_shape_empty" if not sshape else "sample_shape_%s" % "x".join(map(str, sshape)))
     cl.add("batch_none" if batch is None else "batched")
     cl.add("cache_on" if case["cache"] else "cache_off")
+    if case.get("lm_mutates_state_dict") and batch is not None and flat.size(0) >= 2 * batch:
+        cl.add("state_dict_mutating_model_several_draws")
     cl.add("eos_unset" if eos is None else "eos_set")
     if len({tuple(int(v) for v in row) for row in flat}) >= 2:
         cl.add("distinct_samples")
